@@ -107,10 +107,12 @@ pub struct Acc {
     pub graphs: u64,
     pub built: u64,
     pub queries: u64,
+    pub wall_s: f64,
 }
 
 impl Acc {
     pub fn merge(mut self, o: Acc) -> Acc {
+        self.wall_s += o.wall_s;
         self.stats.add(&o.stats);
         self.evaluations += o.evaluations;
         self.cadical_runs += o.cadical_runs;
@@ -320,6 +322,7 @@ pub struct SweepPlan {
 
 impl SweepPlan {
     pub fn run(&self) -> Acc {
+        let t0 = std::time::Instant::now();
         let ras: Vec<RefAnswers> = self.graphs.par_iter().map(|(_, g)| RefAnswers::new(g)).collect();
         let mut base = Acc::default();
         base.graphs = self.graphs.len() as u64;
@@ -333,7 +336,14 @@ impl SweepPlan {
         let queries: Vec<Vec<Query>> = self
             .graphs
             .iter()
-            .map(|(_, g)| queries_for(g.n, &self.kinds, &self.sems, &self.certs, &self.lists, self.with_lib_default))
+            .map(|(_, g)| {
+                let mut qs = queries_for(g.n, &self.kinds, &self.sems, &self.certs, &self.lists, self.with_lib_default);
+                // the exponential encoder is exponential by design: not asked where it needs > 10^6 clauses
+                if crate::universe::exp_clause_bound(g) > 1_000_000 {
+                    qs.retain(|q| q.enc != crate::staticq::Enc::ExpCO);
+                }
+                qs
+            })
             .collect();
         // tasks: (graph, presentation, chunk of queries); big graphs get small chunks
         let mut tasks: Vec<(usize, Presentation, usize, usize)> = vec![];
@@ -373,7 +383,9 @@ impl SweepPlan {
                 acc
             })
             .reduce(Acc::default, Acc::merge);
-        base.merge(acc)
+        let mut out = base.merge(acc);
+        out.wall_s = t0.elapsed().as_secs_f64();
+        out
     }
 }
 
